@@ -187,7 +187,7 @@ class Stage:
                 shutil.copy(os.path.join(VERIF, "harness", fname), dst)
             mod = "verif_" + os.path.splitext(fname)[0]
             inject.setdefault(parent, []).append(
-                '\n#[cfg(any(kani, verif_replay))]\n#[path = "%s"]\nmod %s;\n' % (dst, mod))
+                '\n#[cfg(any(kani, verif_replay))]\n#[path = "%s"]\npub(crate) mod %s;\n' % (dst, mod))
             self.harnesses += parse_harness_file(dst, parent)
         for parent, lines in inject.items():
             p = os.path.join(self.crate, PARENT_FILE[parent])
